@@ -110,4 +110,44 @@ def lindbladian(inp):
 
 
 # thorough tier (bounded native sweeps): (function, inputs, obligation of the open finding it reproduces or None)
-THOROUGH = [('lindbladian', {}, None), ('field_linear_time', {}, None), ('field_free_reduces_to_tempo', {}, None), ('mean_field_methods_agree', {}, None), ('mean_field_shift', {}, None)]
+THOROUGH = [('lindbladian', {}, None), ('field_linear_time', {}, None), ('field_free_reduces_to_tempo', {}, None), ('mean_field_methods_agree', {}, None), ('mean_field_shift', {}, None), ('systems_of_different_length', {}, None)]
+
+
+def systems_of_different_length(inp):
+    """two systems whose process tensors have different lengths (the shorter one limits the computation, whichever system it belongs
+    to: same grid for both orders) or different time steps (rejected, as within one system)"""
+    import warnings
+    import oqupy
+    warnings.filterwarnings('ignore')
+    sx, sz = oqupy.operators.sigma('x'), oqupy.operators.sigma('z')
+    up = oqupy.operators.spin_dm('z+')
+    corr = oqupy.PowerLawSD(alpha=0.1, zeta=1, cutoff=3.0, cutoff_type='gaussian', temperature=0.5)
+    bath = oqupy.Bath(0.5 * sz, corr)
+
+    def H(t, a):
+        return 0.5 * sx + 0.1 * (a + np.conj(a)) * sz
+
+    def eom(t, states, a):
+        return -1j * a - 0.1 * np.trace(states[0] @ sx) - 0.1 * np.trace(states[1] @ sx)
+    mfs = oqupy.MeanFieldSystem([oqupy.TimeDependentSystemWithField(H), oqupy.TimeDependentSystemWithField(H)], eom)
+    p01 = oqupy.TempoParameters(dt=0.1, dkmax=3, epsrel=1e-4)
+    p02 = oqupy.TempoParameters(dt=0.2, dkmax=3, epsrel=1e-4)
+    pt6 = oqupy.PtTempo(bath, 0.0, 0.6, p01).get_process_tensor(progress_type='silent')
+    pt4 = oqupy.PtTempo(bath, 0.0, 0.4, p01).get_process_tensor(progress_type='silent')
+    ptb = oqupy.PtTempo(bath, 0.0, 0.8, p02).get_process_tensor(progress_type='silent')
+
+    def run(pts):
+        try:
+            d = oqupy.compute_dynamics_with_field(mfs, 1.0 + 0j, initial_state_list=[up, up], process_tensor_list=pts, progress_type='silent')
+            return [round(float(t), 10) for t in d.times]
+        except Exception as e:       # noqa
+            return '%s: %s' % (type(e).__name__, str(e)[:80])
+    bad = []
+    want = [round(0.1 * k, 10) for k in range(5)]
+    r1, r2 = run([pt4, pt6]), run([pt6, pt4])
+    if r1 != want or r2 != want:
+        bad.append({'process tensors of 4 and 6 steps': r1, 'of 6 and 4 steps': r2, 'required grid (both orders)': want})
+    r3 = run([pt4, ptb])
+    if not isinstance(r3, str):
+        bad.append({'process tensors with dt = 0.1 and dt = 0.2': 'accepted', 'both systems labelled on': r3})
+    return {'violates': bool(bad), 'detail': bad}
